@@ -672,6 +672,24 @@ def ttm_op(name, mk, pool_min=1, cname="ttm", pre=None):
         lambda rng, tier: [(a, t) for a, t in _g_ttm(rng, tier) if len(a["s"]) >= pool_min])
 
 
+def _g_mttkrp_zero_cols(rng, tier):
+    """matrices WITHOUT columns (R = 0): well-formed ones, and one wrong row count (the loop over the columns never runs)"""
+    out = []
+    for s in pool(tier, 2):
+        N = len(s)
+        good = [[d, 0] for d in s]
+        for n in range(N):
+            out.append(({"s": list(s), "us": good, "n": n}, "control"))
+            for k in range(N):
+                if k != n:
+                    out.append(({"s": list(s), "us": good[:k] + [[s[k] + 1, 0]] + good[k + 1:], "n": n}, "rows_zero_cols"))
+                    out.append(({"s": list(s), "us": good[:k] + [[s[k], 2]] + good[k + 1:], "n": n},
+                                "cols" if N > 2 else "control"))       # 2-way: the only matrix that is looked at
+        out.append(({"s": list(s), "us": good[:-1], "n": 0}, "list_short"))
+        out.append(({"s": list(s), "us": good, "n": N}, "oob_mode"))
+    return out
+
+
 def _g_mttkrp(rng, tier, minN=2):
     out = []
     for s in pool(tier, 1):
@@ -719,10 +737,13 @@ def _pre_mttkrp(a):
     return all(i == n or (us[i][0] == s[i] and us[i][1] == R) for i in range(N))
 
 
-def mttkrp_op(name, mk, guard=None):
+def mttkrp_op(name, mk, guard=None, zero_cols=False):
+    """zero_cols: also matrices without columns (tensor / ttensor / sumtensor.mttkrp refuse even the well-formed ones — numpy cannot
+    reshape the empty Khatri-Rao product — which is outside C19, so the class is generated for the sparse and Kruskal receivers)"""
+    gen = (lambda rng, tier: _g_mttkrp(rng, tier) + _g_mttkrp_zero_cols(rng, tier)) if zero_cols else _g_mttkrp
     reg(name, "mttkrp" if guard is None else ("mttkrp", guard), lambda a: f"{zl(a['s'])} {pl(a['us'])} {gz(a['n'])}", _pre_mttkrp,
         lambda a: (lambda x, us: ([x, us], lambda: x.mttkrp(us, a["n"])))(mk(a["s"]), [marr(u, 2) for u in a["us"]]),
-        _g_mttkrp, guard=guard is not None)
+        gen, guard=guard is not None)
 
 
 # ---------------------------------------------------------------- tensor (continued)
@@ -751,10 +772,11 @@ def _g_scale(rng, tier):
     for s in pool(tier):
         N = len(s)
         for d in subsets(N, rng, tier):
-            if d != sorted(d):
-                continue
-            f = [s[m] for m in d]
+            f = [s[m] for m in sorted(d)]          # dims is a set of modes: the factor's k-th mode is the k-th smallest listed mode
             out.append(({"s": list(s), "f": f, "d": d}, "control"))
+            fc = [s[m] for m in d]
+            if fc != f:                            # the sizes in the caller's order of an unsorted list
+                out.append(({"s": list(s), "f": fc, "d": d}, "caller_order"))
             out.append(({"s": list(s), "f": f[:-1] + [f[-1] + 1], "d": d}, "size"))
             if f[-1] != 1:
                 out.append(({"s": list(s), "f": f[:-1] + [1], "d": d}, "size_one"))
@@ -767,7 +789,7 @@ def _g_scale(rng, tier):
 
 
 reg("tensor.scale", "scale", lambda a: f"{zl(a['s'])} {zl(a['f'])} {zl(a['d'])}",
-    lambda a: modes_ok(len(a["s"]), a["d"]) and a["f"] == [a["s"][m] for m in a["d"]],
+    lambda a: modes_ok(len(a["s"]), a["d"]) and a["f"] == [a["s"][m] for m in sorted(a["d"])],
     lambda a: (lambda x, f: ([x, f], lambda: x.scale(f, _np().array(a["d"], dtype=int))))(T(a["s"]), T(a["f"])), _g_scale)
 
 
@@ -828,7 +850,9 @@ def _g_linear(rng, tier):
     out = []
     for s in pool(tier):
         n = math.prod(s)
-        for k, tag in ((0, "control"), (n - 1, "control"), (n, "oob_index"), (n + 1, "oob_index"), (2 * n + 3, "oob_index")):
+        for k, tag in ((0, "control"), (n - 1, "control"), (n, "oob_index"), (n + 1, "oob_index"), (2 * n + 3, "oob_index"),
+                       (-1, "control"), (-n, "control"), (-(n + 1) // 2, "control"),      # Python's convention: counted from the end
+                       (-n - 1, "neg_oob_index"), (-2 * n, "neg_oob_index" if n > 0 else "control"), (-2 * n - 3, "neg_oob_index")):
             out.append(({"s": list(s), "k": k}, tag))
     return out
 
@@ -837,9 +861,9 @@ def _set_linear(x, k):
     x[_np().array([k])] = 9.0
 
 
-reg("tensor.setitem_linear", "linear_index", lambda a: f"{zl(a['s'])} {gz(a['k'])}", lambda a: 0 <= a["k"] < math.prod(a["s"]),
+reg("tensor.setitem_linear", "linear_index", lambda a: f"{zl(a['s'])} {gz(a['k'])}", lambda a: -math.prod(a["s"]) <= a["k"] < math.prod(a["s"]),
     lambda a: (lambda x: ([x], lambda: _set_linear(x, a["k"])))(T(a["s"])), _g_linear, mutating=True)
-reg("tensor.getitem_linear", "linear_index", lambda a: f"{zl(a['s'])} {gz(a['k'])}", lambda a: 0 <= a["k"] < math.prod(a["s"]),
+reg("tensor.getitem_linear", "linear_index", lambda a: f"{zl(a['s'])} {gz(a['k'])}", lambda a: -math.prod(a["s"]) <= a["k"] < math.prod(a["s"]),
     lambda a: (lambda x: ([x], lambda: x[_np().array([a["k"]])]))(T(a["s"])), _g_linear)
 
 # ---------------------------------------------------------------- sptensor
@@ -934,7 +958,7 @@ reg("sptensor.reshape", ("reshape", "tensor_reshape"), lambda a: f"{zl(a['s'])} 
     lambda a: (lambda t: ([t], lambda: t.reshape(tuple(a["new"]))))(S(a["s"])), _g_reshape)
 ttv_op("sptensor.ttv", S)
 ttm_op("sptensor.ttm", S, pool_min=2, cname=("ttm", "sptensor_ttm"))      # 1-way: to_sptenmat with an empty side raises (A-02, outside C19)
-mttkrp_op("sptensor.mttkrp", S, guard="sptensor_mttkrp")
+mttkrp_op("sptensor.mttkrp", S, guard="sptensor_mttkrp", zero_cols=True)
 
 # ---------------------------------------------------------------- ktensor
 
@@ -1027,7 +1051,7 @@ two_shapes("ktensor.innerprod_dense", K, T, lambda x, y: x.innerprod(y))
 two_shapes("ktensor.add", K, K, lambda x, y: x + y)
 perm_op("ktensor.permute", K, lambda x, o: x.permute(o))
 ttv_op("ktensor.ttv", K)
-mttkrp_op("ktensor.mttkrp", K, guard="ktensor_mttkrp")
+mttkrp_op("ktensor.mttkrp", K, guard="ktensor_mttkrp", zero_cols=True)
 
 # ---------------------------------------------------------------- ttensor
 
@@ -1494,6 +1518,14 @@ def _g_gcp(rng, tier):
         out.append((dict(base, init={"l": good + [[2, 2]]}), "list_len"))
         if s != s[::-1]:
             out.append((dict(base, init={"l": good[::-1]}), "list_size"))
+        # a list guess next to a rank <= 0: matrices of the data's sizes with 2 / 1 / no columns
+        for rank in (0, -1, -2):
+            for c in (2, 1, 0):
+                out.append((dict(base, rank=rank, init={"l": [[d, c] for d in s]}), "rank"))
+            out.append((dict(base, rank=rank, init={"k": s, "R": 2}), "rank"))
+        out.append((dict(base, rank=0, init={"k": s, "R": 0}), "rank"))
+        out.append((dict(base, rank=-1, init="random"), "rank"))
+        out.append((dict(base, rank=0, init={"l": [[d, 0] for d in s]}, opt="none"), "rank"))
     for s in ([3, 1], [1, 2, 3]):           # singleton modes: a wrong row count that numpy broadcasts against the data
         base = {"s": s, "rank": 2, "init": "random", "opt": "lbfgsb"}
         good = [[d, 2] for d in s]
@@ -1625,7 +1657,8 @@ FINDINGS = []      # source of findings.d/C19.jsonl (written by `python3 tools/p
 # if such a defect comes back the correspondence reports it
 FIXED = {"C19-N02": "b4434a4", "C19-N03": "d384651", "A-42": "f9fb7ec", "A-44": "3c0ad44", "A-45": "ce8a533",
          "C19-N04": "d862071", "C19-N05": "2c19f39", "C19-N06": "f9fb7ec", "C19-N07": "5b41ba6", "C19-N08": "aca2504",
-         "C19-N10": "d3df9c1", "C19-N12": "922ff4e", "C19-N13": "7d1fad0", "C19-N14": "f8cdd2b", "C19-N15": "03352d0"}
+         "C19-N10": "d3df9c1", "C19-N12": "922ff4e", "C19-N13": "7d1fad0", "C19-N14": "f8cdd2b", "C19-N15": "03352d0",
+         "C19-N01": "072fe0a", "C19-N09": "4943733", "C19-N16": "2c0f010", "C19-N17": "929a206", "C19-N19": "3b2d1cd"}
 
 
 def finding(fid, trigger, pred, op, witness, what, call_site, proposed="fix"):
@@ -1659,10 +1692,11 @@ def _bcast(a, b):
 DENSE_BINOPS = {"tensor.add", "tensor.sub", "tensor.mul", "tensor.logical_and", "tensor.eq", "tensor.le"}
 
 finding("A-28", "permute_all_ones",
-        lambda op, a: op == "tensor.permute" and len(a["order"]) == len(a["s"]) >= 1 and all(x == 1 for x in a["order"]),
+        lambda op, a: op == "tensor.permute" and len(a["s"]) == 1 and a["order"] == [1],
         "tensor.permute", {"s": [4], "order": [1]},
-        "tensor.permute: the '(order == 1).all()' shortcut returns a copy for any all-ones order ([1] on a 1-way tensor, "
-        "[1,1] on a matrix) instead of rejecting the invalid permutation", "tensor.permute", proposed="known")
+        "tensor.permute: the '(order == 1).all()' shortcut, left for 1-way tensors (fix 072fe0a), returns a copy for the order [1] on "
+        "a 1-way tensor instead of rejecting the invalid permutation (upstream tests/test_tensor.py::test_tensor_permute asks for it)",
+        "tensor.permute", proposed="known")
 finding("C19-N01", "permute_negative_axes",
         lambda op, a: op == "tensor.permute" and len(a["order"]) == len(a["s"]) and any(x < 0 for x in a["order"])
         and _wrapped_distinct(len(a["s"]), a["order"]),
@@ -1747,6 +1781,11 @@ tagfinding("C19-N09", ["ktensor.mttkrp", "sptensor.mttkrp"], ["cols", "cols_one"
            {"s": [2, 2, 2], "us": [[2, 2], [2, 3], [2, 2]], "n": 2},
            "mttkrp: the column counts of the matrices in U are not compared (sptensor uses the first R columns, ktensor "
            "broadcasts a single column)", "sptensor.mttkrp / ktensor.mttkrp")
+tagfinding("C19-N20", ["sptensor.mttkrp"], ["rows_zero_cols"], "sptensor.mttkrp",
+           {"s": [2, 3, 4], "us": [[2, 0], [5, 0], [4, 0]], "n": 0},
+           "sptensor.mttkrp with factor matrices that have no column: the row counts are compared only inside the loop over the "
+           "columns (by ttv), which never runs, so a matrix with the wrong number of rows is answered (zeros of shape (shape[n], 0)); "
+           "tensor / ktensor / ttensor.mttkrp reject the same request", "sptensor.mttkrp")
 tagfinding("C19-N10", ["ttensor.mttkrp"], ["list_short", "list_long"], "ttensor.mttkrp",
            {"s": [2, 2, 2], "us": [[2, 2], [2, 2], [2, 2], [2, 2]], "n": 2},
            "ttensor.mttkrp does not check the length of U (extra matrices ignored; a short list answers when n is the "
